@@ -372,6 +372,30 @@ func c05Variants(c c05Case) (baseline func() (resultSet, error), vs []c05Variant
 			kind := kind
 			vs = append(vs, c05Variant{"store-" + kind, func() (resultSet, error) { return evalPlain(p, kind, r.Intn(2) == 0, cols, nil) }})
 		}
+		vs = append(vs, c05Variant{"store-saved-partial-result", func() (resultSet, error) {
+			// evaluate once, save a random half of the resulting facts in a simple-column file, and evaluate
+			// again on a merged store whose read-only layer is the lazily read file
+			pi, err := analyze(p, true)
+			if err != nil {
+				return nil, fmt.Errorf("analysis: %w", err)
+			}
+			first := newEngineStore("multiarray", nil)
+			if err := engine.EvalProgram(pi, first); err != nil {
+				return nil, fmt.Errorf("evaluation: %w", err)
+			}
+			var keep []ast.Atom
+			rr := rand.New(rand.NewSource(c.Seed + 77))
+			for _, a := range allFacts(first) {
+				if rr.Intn(2) == 0 {
+					keep = append(keep, a)
+				}
+			}
+			store := newEngineStore("merged-file", keep)
+			if err := engine.EvalProgram(pi, store); err != nil {
+				return nil, fmt.Errorf("evaluation: %w", err)
+			}
+			return collectResults(store, nil, nil, cols), nil
+		}})
 		vs = append(vs, c05Variant{"deterministic-order", func() (resultSet, error) {
 			return evalPlain(p, "multiarray", true, cols, nil, engine.WithDeterministicOrder())
 		}})
